@@ -326,3 +326,45 @@ prop(
                     "round_trips_while_a_client_ignores_a_large_response": 500, "histories_vanishing_refused_client": 500,
                     "histories_exhaustive": 1000}},
 )
+
+prop(
+    "C10",
+    title="At most 10 connections; excess get 503 and close; dead connections are reaped",
+    level="exploration",
+    technique="runtime monitoring: capacity rules and descriptor conservation checked on the process's socket table (getpeername attribution, /proc/self/fdinfo epoll set, fcntl scan) after every polling call of histories around the capacity boundary",
+    design_ref="DESIGN.md §3 C10",
+    engine="server-simulator",
+    rule="Scripted-random boundary histories with up to 13 clients: fill to 9/10/11/12/13 with polls interleaved or batched, churn "
+         "at the boundary (close, reconnect, connect+close inside one readiness batch, sends, small/1 MiB answers, witness round "
+         "trips), drain cycles with closes that leave unread input, unsent output or requests in flight, 1-3 fill/drain cycles; "
+         "free random histories of 60-200 actions with 12 clients; a fifth of them with a registered kill switch. After every "
+         "polling call: open served clients <= 10, refusal only if the epoll set held 10 connections before that call, 503 bytes "
+         "exact + EOF; at the end: bounded settle, nothing lost, descriptor conservation, then all answers supplied and no dead "
+         "connection left. evaluations = histories; distinct_nontrivial = distinct histories with at least 9 client generations.",
+    assumptions=["between `entries < 10` and `10 open clients` (dead but unswept or still-owed entries) either outcome of a connect is accepted",
+                 "a closed connection that is still owed answers may be kept or released"],
+    floors={"any": {"refusals_observed": 2000, "refused_clients_with_exact_503_and_eof": 1000, "acceptances_into_the_last_slot": 1000,
+                    "refusals_while_dead_connections_still_occupy_slots": 500, "witness_round_trips_at_capacity": 1000,
+                    "descriptor_conservation_checks": 2000, "closed_with_requests_in_flight": 1000}},
+)
+
+prop(
+    "C18",
+    title="Shutdown request always wins: polling reports it and never blocks",
+    level="exploration",
+    technique="runtime monitoring: kill switch signalled at the end of every explored history prefix, then five gated polling calls must each report shutdown; with/without differential for an unsignalled switch",
+    design_ref="DESIGN.md §3 C18",
+    engine="server-simulator",
+    rule="Bounded-exhaustive: every sequence of enabled actions up to depth 7 (quick) / 9 (thorough) with well-behaved clients and "
+         "depth 6/8 with closing / half-closing clients; every node of the search (= every prefix of every history) ends with "
+         "signal + 5 polls. Random histories of 1-60 actions with 4 clients. Full-batch histories: 8-10 connections that are "
+         "permanently ready (closed or half-closed while answers are owed), unsent 1 MiB output, unanswered requests, 0-3 further "
+         "clients waiting on the listener, then the signal. Differential: random action lists executed with and without a "
+         "registered, never signalled kill switch must give identical yields and client bytes. evaluations = histories; "
+         "distinct_nontrivial = distinct histories with at least one client.",
+    assumptions=["a call that would block is detected by poll(2) on the server's epoll descriptor before each requests() call, so the check itself never blocks"],
+    floors={"any": {"shutdown_indications_observed": 20000, "signalled_at_capacity": 1000, "signalled_at_capacity_with_a_client_waiting": 500,
+                    "signalled_with_unsent_output": 500, "signalled_with_unanswered_requests": 2000,
+                    "signalled_with_partially_received_request": 1000, "signalled_while_idle_without_connections": 500,
+                    "differential_pairs": 500, "max_descriptors_in_epoll_set_when_signalled": 12}},
+)
